@@ -60,6 +60,9 @@ structure Table where
   N : Nat
   entries : Nat
 
+/-- `N` buckets all holding the invalid key, `entries_ = 0` -/
+def emptyTable (N : Nat) : Table := { s := fun _ => none, N := N, entries := 0 }
+
 /-- result of an operation that can throw `ProbingSizeException` (`full`, with the state the
 exception leaves behind: `entries_` has already been incremented) or fail to terminate -/
 inductive Res (α : Type) where
